@@ -11,7 +11,9 @@ import (
 // Event: Kind EvStandalone, Str = op kind, Pos = policy instance, A = result, B = argument, L = phase (0 invoke, 1 return).
 
 func (w *World) standalone(op *Op) {
-	inv := func() { w.log.add(Event{Kind: EvStandalone, Str: op.Kind, Pos: op.Pol, B: int64(op.N), L: 0, Exec: -2}) }
+	inv := func() {
+		w.log.add(Event{Kind: EvStandalone, Str: op.Kind, Pos: op.Pol, B: int64(op.N), L: 0, Exec: -2})
+	}
 	ret := func(a int64, err error) {
 		w.log.add(Event{Kind: EvStandalone, Str: op.Kind, Pos: op.Pol, A: a, B: int64(op.N), Err: err, L: 1, Exec: -2})
 	}
